@@ -34,6 +34,16 @@ def gen(ctx, path):
         pts = [p + (a,) for p in rnd.sample(lattice_out(node), 60 if ctx.quick else 300) for a in (-0.5, 0.0, 0.25, 1.0, 1.5)]
         for p in pts:
             c.add(op="bounds", node=node, alpha=1, **{"in": p})
+    # colour types outside the XYZ group: CAM16-UCS (lightness 0..100, colourfulness >= 0) and CAM16 (attributes >= 0)
+    XB = {"cam16ucsjab": [(0, 100), (-50, 50), (-50, 50)], "cam16ucsjmh": [(0, 100), (0, 50), None], "cam16jch": [(0, 100), (0, 100), None],
+          "cam16qsh": [(0, 100), (0, 100), None], "cam16": [(0, 100), (0, 100), None, (0, 100), (0, 100), (0, 100)]}
+    for node, rs in XB.items():
+        axes = [comp_values_out(r) for r in rs]
+        pts = list(itertools.product(*axes))
+        if len(pts) > 400:
+            pts = rnd.sample(pts, 400 if ctx.quick else 4000) + pts[:8]
+        for p in pts:
+            c.add(op="xbounds", node=node, **{"in": p})
     # colours with integer components (bounds 0 .. MAX of the type: every value is inside, clamping is the identity)
     for node, mx, n in (("srgb_u8", 255, 3), ("srgb_u16", 65535, 3), ("linsrgb_u32", 2 ** 32 - 1, 3), ("srgbluma_u8", 255, 1), ("linluma_u16", 65535, 1)):
         vals = [0, 1, mx // 2, mx // 2 + 1, mx - 1, mx]
@@ -108,7 +118,9 @@ def replay(ctx, path):
     # re-execute the same input on the current tree
     vals = [dy_to_float(x) for x in ev["in"]]
     c = Cmds(ctx.p("replay.cmds"))
-    if ev["ev"] == "bounds" and ev.get("t") in ("u8", "u16", "u32"):
+    if ev["ev"] == "bounds" and ev["node"].startswith("cam16"):
+        c.add(op="xbounds", node=ev["node"], **{"in": vals})
+    elif ev["ev"] == "bounds" and ev.get("t") in ("u8", "u16", "u32"):
         c.add(op="ibounds", node=ev["node"], iin=[int(v) for v in vals])
     elif ev["ev"] == "bounds":
         c.add(op="bounds", node=ev["node"], alpha=ev.get("alpha", 0), **{"in": vals})
